@@ -27,6 +27,7 @@
                                       states of A, Props/C04 `moore_sound`/`moore_complete`)
         quotient_check <A>         -> 1      specification self-test (implementation not involved):
                                              the model's own quotient passes the checker
+                                             (Props/C04 `quotient_passes_check`, executed)
         hopcroft <n> <k> <fin> <rows> <ids> -> ok   `ids` = block_id of every state after
                                              `Minimizer::refine()`; model: `ok` iff it is the Moore
                                              partition up to renumbering
@@ -150,7 +151,8 @@ def handle (op : String) (args : List String) : Option Reply :=
       okProved (pNat (numBlocks (moore A)))
   | "quotient_check", [A] => do
       let A ← rAut A
-      ok (pBool (match quotient A (moore A) with
+      -- Props/C04 `quotient_passes_check`: always `1` for a well-formed complete DFA
+      okProved (pBool (match quotient A (moore A) with
         | some Q => checkMinimized A Q && Q.numStates == numBlocks (moore A)
         | none => false))
   | "hopcroft", [n, k, fin, rows, ids] => do
